@@ -145,6 +145,11 @@ func init() {
 		{ID: "E1.revoke.parse.only", Fn: "op.ParseTokenRevocationRequest", Kind: "ret ok", Max: 4},
 	}
 	for _, o := range obs {
+		if o.ID == "E1.revoke.parse.authenticated" {
+			sharedObs["C08"] = append(sharedObs["C08"], o) // "revocation attempts by another client are refused": the revoking client is an authenticated one
+		}
+	}
+	for _, o := range obs {
 		if o.ID == "E1.introspect.provider" || o.ID == "E1.introspect.legacy-server" || o.ID == "E1.server.introspect.authenticated" {
 			o.ID = strings.Replace(o.ID, "E1.introspect", "E1.introspect.caller", 1)
 			sharedObs["C08"] = append(sharedObs["C08"], o)
